@@ -62,6 +62,26 @@ _RE_INV = re.compile(r"Invariant (\S+) is violated")
 _RE_PROP = re.compile(r"(Action property|Temporal properties|Temporal property|property) (\S+)? ?(is|was|were) violated")
 
 
+def tlaps(module, timeout=600, threads=8):
+    """Run the TLA+ proof system on specs/<module>.tla in a scratch copy of specs/.  Returns (proved, obligations, tail):
+    proved is True only when tlapm reports that ALL obligations were proved."""
+    wd = tempfile.mkdtemp(prefix="tlaps-", dir=scratch())
+    for f in os.listdir(SPECS):
+        if f.endswith(".tla"):
+            shutil.copy(os.path.join(SPECS, f), os.path.join(wd, f))
+    t0 = time.time()
+    try:
+        p = subprocess.run(["tlapm", "--threads", str(threads), module + ".tla"], cwd=wd, stdout=subprocess.PIPE, stderr=subprocess.STDOUT, timeout=timeout)
+        txt = p.stdout.decode(errors="replace")
+    except subprocess.TimeoutExpired as e:
+        txt = (e.stdout or b"").decode(errors="replace") + "\n[timeout]"
+    except FileNotFoundError:
+        txt = "tlapm not found"
+    m = re.search(r"All (\d+) obligations? proved", txt)
+    log("tlapm %s: %.1fs %s" % (module, time.time() - t0, m.group(0) if m else "NOT all proved"))
+    return bool(m), int(m.group(1)) if m else 0, txt[-2000:]
+
+
 def tlc(module, cfg, workdir=None, workers=None, timeout=600, extra=(), files=None,
         dfs=False, simulate=None, depth=None, seed=None, stdout_to=None, heap=None,
         coverage=False, deadlock=None):
